@@ -54,7 +54,8 @@ macro "prelude_simp" "[" ls:Lean.Parser.Tactic.simpLemma,* "]" loc:(Lean.Parser.
       u32_add, u32_sub, u32_mul, u32_div, u32_min, u32_max, u32_eq, u32_ne, u32_lt, u32_le, u32_gt, u32_ge,
       u32_saturating_add, u32_saturating_sub, u32_saturating_as_i32, u32_as_i32, bool_and, bool_or, bool_not,
       option_is_some_and, range_i32_new, rangeinclusive_i32_new, rangeinclusive_i32_start, rangeinclusive_i32_end,
-      rangeinclusive_i32_contains, debug_assert, $ls,*] $[$loc]?)
+      rangeinclusive_i32_contains, debug_assert, RangeI32_start, RangeI32_end, RangeI32_set_start, RangeI32_set_end,
+      range_i32_is_empty, range_i32_next, $ls,*] $[$loc]?)
 
 theorem tdiv_two (a : Int) : Int.tdiv a 2 = tdiv2 a := by
   unfold tdiv2
@@ -233,12 +234,20 @@ theorem OffsetOutline_offset_src_eq_model (r : Rect) (o : Int) (h : IsU32 r.size
     RectSrc.OffsetOutline_offset r o = r.offset o := by
   unfold RectSrc.OffsetOutline_offset; exact offset_src_eq_model r o h
 
-theorem rows_src_eq_model (r : Rect) : RectSrc.rows r = r.rows := by
-  prelude_simp [RectSrc.rows, Rect.rows, satAddI32, satAsI32]
+theorem rows_src_eq_model (r : Rect) : range_i32_to_list (RectSrc.rows r) = r.rows := by
+  prelude_simp [RectSrc.rows, Rect.rows, satAddI32, satAsI32, range_i32_to_list]
   rfl
 
-theorem columns_src_eq_model (r : Rect) : RectSrc.columns r = r.columns := by
-  prelude_simp [RectSrc.columns, Rect.columns, satAddI32, satAsI32]
+theorem columns_src_eq_model (r : Rect) : range_i32_to_list (RectSrc.columns r) = r.columns := by
+  prelude_simp [RectSrc.columns, Rect.columns, satAddI32, satAsI32, range_i32_to_list]
+  rfl
+
+/-- the two ends of `rows()` / `columns()` as the model names them -/
+theorem rows_ends_src_eq_model (r : Rect) : RectSrc.rows r = ⟨r.tl.y, r.rowsEnd⟩ := by
+  prelude_simp [RectSrc.rows, Rect.rowsEnd, satAddI32, satAsI32]
+  rfl
+theorem columns_ends_src_eq_model (r : Rect) : RectSrc.columns r = ⟨r.tl.x, r.columnsEnd⟩ := by
+  prelude_simp [RectSrc.columns, Rect.columnsEnd, satAddI32, satAsI32]
   rfl
 
 theorem is_zero_sized_src_eq_model (r : Rect) : RectSrc.is_zero_sized r = r.isZeroSized := by
